@@ -215,8 +215,13 @@ func (db *ContractDB) LoadContractFile(file, pkgPath string) {
 			if pkgPath == "" {
 				pk, name = splitQualified(name)
 			}
-			curType = &TypeSpec{Pkg: pk, Name: name, Monitors: map[string][]*Clause{}}
-			db.Types[pk+"."+name] = curType
+			if prev, ok := db.Types[pk+"."+name]; ok {
+				// a second block for the same type adds to the first one
+				curType = prev
+			} else {
+				curType = &TypeSpec{Pkg: pk, Name: name, Monitors: map[string][]*Clause{}}
+				db.Types[pk+"."+name] = curType
+			}
 		case "private":
 			if curType == nil || len(fields) < 2 {
 				errf("bad private clause")
